@@ -118,8 +118,18 @@ impl<'a> PrettyPrinter<'a> {
     }
 
     fn convert_list_item_like(&'a self, ctx: Context, item: &'a SyntaxNode) -> ArenaDoc<'a> {
+        // A term that ends in a line-break backslash needs a blank before the colon, or the colon is escaped.
+        let term_ends_with_linebreak = item
+            .children()
+            .take_while(|child| child.kind() != SyntaxKind::Colon)
+            .filter(|child| child.kind() != SyntaxKind::Space)
+            .last()
+            .is_some_and(ends_with_linebreak);
         self.convert_flow_like(ctx, item, |ctx, child| match child.kind() {
             SyntaxKind::ListMarker | SyntaxKind::EnumMarker | SyntaxKind::TermMarker => {
+                FlowItem::spaced(self.arena.text(child.text().as_str()))
+            }
+            SyntaxKind::Colon if term_ends_with_linebreak => {
                 FlowItem::spaced(self.arena.text(child.text().as_str()))
             }
             SyntaxKind::Colon => FlowItem::tight_spaced(self.arena.text(child.text().as_str())),
